@@ -2,12 +2,16 @@
 import json
 import vlib
 
-THEOREMS = "HardIsClean HardKeepsUntracked SwitchLosesNothing SwitchKeepsStaged AddAllMatches StatusCleanIff WellFormed DirtyWriteRefuses Emit"
+THEOREMS = "BadOptionsChangeNothing HardIsClean HardKeepsUntracked SwitchLosesNothing SwitchKeepsStaged AddAllMatches StatusCleanIff WellFormed DirtyWriteRefuses Emit"
 UNIVERSES = {
     # name: (Paths, Under, Entries, KindOf, CleanOnly, Ops, Cone, SparseSets)
     "one-path-all-kinds": ("P1", "NoUnder", "E4", "K4", "FALSE", "OpsNoMove", "NoCone", "{}"),
     "dir-file-conflict": ("PDF", "UDF", "E2", "K2", "FALSE", "OpsMain", "NoCone", "{}"),
     "two-paths": ("P2", "NoUnder", "E2", "K2", "FALSE", "OpsMain", "NoCone", "{}"),
+    # the same universes with the refusal / reset-to-HEAD / pull operations added (C29, C30)
+    "one-path-all-kinds+r": ("P1", "NoUnder", "E4", "K4", "FALSE", "OpsNoMoveR", "NoCone", "{}"),
+    "dir-file-conflict+r": ("PDF", "UDF", "E2", "K2", "FALSE", "OpsMainR", "NoCone", "{}"),
+    "two-paths+r": ("P2", "NoUnder", "E2", "K2", "FALSE", "OpsMainR", "NoCone", "{}"),
     "sparse": ("PS", "NoUnder", "E1", "K1", "TRUE", "OpsSparse", "ConeS", "SS"),
 }
 CFG = """CONSTANTS Paths <- %s Under <- %s Entries <- %s KindOf <- %s CleanOnly = %s Ops <- %s Cone <- %s SparseSets <- %s
@@ -27,7 +31,7 @@ def rows_for(ctx, universes, ops):
         for u in universes:
             cfg = CFG % UNIVERSES[u]
             cfg = cfg.replace("SparseSets <- {}", "SparseSets = {}")
-            r = ctx.tlc("MCRepo", cfg=("repo_%s.cfg" % u), cfg_text=cfg, workers=1, timeout=3000, heap="6g")
+            r = ctx.tlc("MCRepo", cfg=("repo_%s.cfg" % u.replace("+", "_")), cfg_text=cfg, workers=1, timeout=3000, heap="6g")
             k = 0
             for row in ctx.printed_json(r):
                 if row.get("op") in ops:
